@@ -61,15 +61,15 @@ structure PieceM (T t1 : Tokenizer) (k : TokenType) (len : Nat) : Prop where
   cdata : t1.allowCdata = T.allowCdata
   buf : t1.buf = T.buf
 
-/-- the main loop on `</name>` -/
-theorem mainLoop_end_tag (T : Tokenizer) (disp : Bytes) (ok : Ok T) (he : T.err = false) (hrs : T.rawS = T.rawE)
-    (hn : nameOK disp = true) (h : Has T T.rawE ([60, 47] ++ disp ++ [62])) :
+/-- the main loop on `</name>` (any name `read_tag_name` accepts) -/
+theorem mainLoop_end_tag2 (T : Tokenizer) (disp : Bytes) (ok : Ok T) (he : T.err = false) (hrs : T.rawS = T.rawE)
+    (hn : nameOK2 disp = true) (h : Has T T.rawE ([60, 47] ++ disp ++ [62])) :
     PieceM T (mainLoop T) .endTag ([60, 47] ++ disp ++ [62]).length ∧
     (mainLoop T).dataS = T.rawE + 2 ∧ (mainLoop T).dataE = T.rawE + 2 + disp.length := by
   cases disp with
-  | nil => simp [nameOK] at hn
+  | nil => simp [nameOK2] at hn
   | cons c nm =>
-    simp only [nameOK, Bool.and_eq_true, List.all_eq_true] at hn
+    simp only [nameOK2, Bool.and_eq_true, List.all_eq_true] at hn
     obtain ⟨hc, hnm⟩ := hn
     have hx : [60, 47] ++ (c :: nm) ++ [62] = 60 :: 47 :: c :: (nm ++ [62]) := by simp
     rw [hx] at h ⊢
@@ -87,7 +87,7 @@ theorem mainLoop_end_tag (T : Tokenizer) (disp : Bytes) (ok : Ok T) (he : T.err 
       simp only [attrsOf, List.nil_append, List.append_nil, TagEnd.text]
       exact (this.congr (e4.trans o.buf)).at (by rw [e2, o.rawE])
     have run := readTag_run nm [] [] .gt S.readByte.1 false a3.ok (by omega) e3
-      (fun b hb => nameByte_of_alnum (hnm b hb)) (by simp) (by simp) rfl hnmhas
+      hnm (by simp) (by simp) rfl hnmhas
     have a4 := readTag_adv S.readByte.1 false a3.ok (by omega)
     obtain ⟨⟨r1, r2⟩, r3, r4⟩ := run
     rw [hml]
@@ -111,6 +111,12 @@ theorem mainLoop_end_tag (T : Tokenizer) (disp : Bytes) (ok : Ok T) (he : T.err 
     · show (readTag S.readByte.1 false).dataS = _; rw [r3, e2, o.rawE]; omega
     · show (readTag S.readByte.1 false).dataE = _; rw [r4, e2, o.rawE]; simp; omega
 
+theorem mainLoop_end_tag (T : Tokenizer) (disp : Bytes) (ok : Ok T) (he : T.err = false) (hrs : T.rawS = T.rawE)
+    (hn : nameOK disp = true) (h : Has T T.rawE ([60, 47] ++ disp ++ [62])) :
+    PieceM T (mainLoop T) .endTag ([60, 47] ++ disp ++ [62]).length ∧
+    (mainLoop T).dataS = T.rawE + 2 ∧ (mainLoop T).dataE = T.rawE + 2 + disp.length :=
+  mainLoop_end_tag2 T disp ok he hrs (nameOK2_of_nameOK hn) h
+
 /-- `next` is the main loop when no raw-text context is pending -/
 theorem next_mainLoop (t : Tokenizer) (he : t.err = false) (htag : t.rawTag = []) :
     next t = mainLoop { ({ t with rawS := t.rawE, dataS := t.rawE, dataE := t.rawE } : Tokenizer) with
@@ -120,16 +126,22 @@ theorem next_mainLoop (t : Tokenizer) (he : t.err = false) (htag : t.rawTag = []
   rw [if_neg (by show ¬ t.err = true; rw [he]; exact Bool.false_ne_true),
     if_neg (by show ¬ (t.rawTag != []) = true; rw [htag]; decide)]
 
-/-- **closed form of `next` on an end tag `</name>`** followed by anything -/
-theorem end_tag_closed_form (t : Tokenizer) (disp : Bytes) (ok : Ok t) (he : t.err = false) (htag : t.rawTag = [])
-    (hn : nameOK disp = true) (h : Has t t.rawE ([60, 47] ++ disp ++ [62])) :
+/-- **closed form of `next` on an end tag `</name>`** (any name `read_tag_name` accepts) followed by anything -/
+theorem end_tag_closed_form2 (t : Tokenizer) (disp : Bytes) (ok : Ok t) (he : t.err = false) (htag : t.rawTag = [])
+    (hn : nameOK2 disp = true) (h : Has t t.rawE ([60, 47] ++ disp ++ [62])) :
     Piece t (next t) .endTag ([60, 47] ++ disp ++ [62]).length [] ∧
     (next t).dataS = t.rawE + 2 ∧ (next t).dataE = t.rawE + 2 + disp.length := by
   rw [next_mainLoop t he htag]
-  have := mainLoop_end_tag { ({ t with rawS := t.rawE, dataS := t.rawE, dataE := t.rawE } : Tokenizer) with
+  have := mainLoop_end_tag2 { ({ t with rawS := t.rawE, dataS := t.rawE, dataE := t.rawE } : Tokenizer) with
       textIsRaw := false, convertNull := false } disp ⟨ok.le, ok.panic, ok.hang, ok.utf8⟩ he rfl hn (h.congr rfl)
   obtain ⟨p, d1, d2⟩ := this
   exact ⟨⟨p.token, p.rawS, p.rawE, p.err, p.rawTag.trans htag, p.cdata, p.buf⟩, d1, d2⟩
+
+theorem end_tag_closed_form (t : Tokenizer) (disp : Bytes) (ok : Ok t) (he : t.err = false) (htag : t.rawTag = [])
+    (hn : nameOK disp = true) (h : Has t t.rawE ([60, 47] ++ disp ++ [62])) :
+    Piece t (next t) .endTag ([60, 47] ++ disp ++ [62]).length [] ∧
+    (next t).dataS = t.rawE + 2 ∧ (next t).dataE = t.rawE + 2 + disp.length :=
+  end_tag_closed_form2 t disp ok he htag (nameOK2_of_nameOK hn) h
 
 /-! ### comments -/
 
@@ -177,11 +189,113 @@ theorem commentGo_run : ∀ (body : Bytes) (d : Nat) (t : Tokenizer), Has t t.ra
     · obtain ⟨⟨r1, r2⟩, r3, r4⟩ := ih0
       exact ⟨⟨by rw [r1, e2]; simp; omega, r2⟩, by rw [r3]; simp, by rw [r4, e2]; simp; omega⟩
 
-theorem readComment_run (body : Bytes) (t : Tokenizer) (h : Has t t.rawE (body ++ [45, 45, 62]))
-    (hb : commentOK body = true) (he : t.err = false) :
+/-! ### comments whose body may contain `>` and `!` -/
+
+/-- `read_comment`'s loop replayed on the body (dash = number of `-` just seen, 2 initially): the body is accepted iff the
+loop does not terminate inside it and is in a state from which the final `-->` terminates it.
+`-` → dash+1; `>` needs dash < 2; `!` after `--` needs a following byte in the body other than `>` (it is consumed);
+everything else resets dash. -/
+def cOK : Nat → Bytes → Bool
+  | _, [] => true
+  | d, b :: rest =>
+    if b == 45 then cOK (d + 1) rest
+    else if b == 62 then decide (d < 2) && cOK 0 rest
+    else if b == 33 then
+      if d ≥ 2 then
+        match rest with
+        | [] => false
+        | b2 :: rest2 => b2 != 62 && cOK 0 rest2
+      else cOK 0 rest
+    else cOK 0 rest
+
+/-- comment bodies covered by `comment_closed_form2`: no `-->` / `--!>` inside, not starting with `>`, `->` or `!>`, not
+ending with `--!` -/
+def commentOK2 (body : Bytes) : Bool := cOK 2 body
+
+theorem cOK_of_commentOK : ∀ (body : Bytes) (d : Nat), commentOK body = true → cOK d body = true
+  | [], _, _ => rfl
+  | b :: rest, d, h => by
+    simp only [commentOK, List.all_cons, Bool.and_eq_true, bne_iff_ne, ne_eq] at h
+    obtain ⟨⟨h1, h2⟩, h3⟩ := h
+    have ih1 := cOK_of_commentOK rest (d + 1) (by simpa [commentOK] using h3)
+    have ih0 := cOK_of_commentOK rest 0 (by simpa [commentOK] using h3)
+    unfold cOK
+    simp only [show (b == 62) = false by simp [h1], show (b == 33) = false by simp [h2], Bool.false_eq_true, if_false]
+    split
+    · exact ih1
+    · exact ih0
+
+theorem commentOK2_of_commentOK {body : Bytes} (h : commentOK body = true) : commentOK2 body = true :=
+  cOK_of_commentOK body 2 h
+
+theorem commentGo_run2_aux : ∀ (n : Nat) (body : Bytes) (d : Nat) (t : Tokenizer), body.length ≤ n →
+    Has t t.rawE (body ++ [45, 45, 62]) → cOK d body = true → t.err = false →
+    Stops t (commentGo t d) (body.length + 3) ∧ (commentGo t d).dataS = t.dataS ∧
+    (commentGo t d).dataE = t.rawE + body.length := by
+  intro n
+  induction n with
+  | zero =>
+    intro body d t hn h _ he
+    have : body = [] := List.length_eq_zero_iff.mp (by omega)
+    subst this
+    simpa using commentGo_close t d h he
+  | succ n ih =>
+    intro body d t hn h hb he
+    cases body with
+    | nil => simpa using commentGo_close t d h he
+    | cons b rest =>
+      have hn' : rest.length ≤ n := by simp at hn; omega
+      obtain ⟨e1, e2, e3, e4⟩ := read_known h.head he
+      have hh : Has t.readByte.1 t.readByte.1.rawE (rest ++ [45, 45, 62]) := ((h.tail).congr e4).at (by rw [e2])
+      have fin : ∀ (x : Tokenizer), (Stops t.readByte.1 x (rest.length + 3) ∧ x.dataS = t.readByte.1.dataS ∧
+          x.dataE = t.readByte.1.rawE + rest.length) →
+          (Stops t x ((b :: rest).length + 3) ∧ x.dataS = t.dataS ∧ x.dataE = t.rawE + (b :: rest).length) := by
+        intro x ⟨⟨r1, r2⟩, r3, r4⟩
+        exact ⟨⟨by rw [r1, e2]; simp; omega, r2⟩, by rw [r3]; simp, by rw [r4, e2]; simp; omega⟩
+      unfold cOK at hb
+      rw [commentGo]
+      simp only [e3, e1, Bool.false_eq_true, dite_false, if_false]
+      by_cases h45 : (b == 45) = true
+      · rw [if_pos h45] at hb ⊢
+        exact fin _ (ih rest (d + 1) _ hn' hh hb e3)
+      · rw [if_neg h45] at hb ⊢
+        by_cases h62 : (b == 62) = true
+        · rw [if_pos h62] at hb ⊢
+          simp only [Bool.and_eq_true, decide_eq_true_eq] at hb
+          rw [if_neg (by omega)]
+          exact fin _ (ih rest 0 _ hn' hh hb.2 e3)
+        · rw [if_neg h62] at hb ⊢
+          by_cases h33 : (b == 33) = true
+          · rw [if_pos h33] at hb ⊢
+            by_cases hd : d ≥ 2
+            · rw [if_pos hd] at hb ⊢
+              cases rest with
+              | nil => cases hb
+              | cons b2 rest2 =>
+                simp only [Bool.and_eq_true, bne_iff_ne, ne_eq] at hb
+                obtain ⟨f1, f2, f3, f4⟩ := read_known hh.head e3
+                have hh2 : Has t.readByte.1.readByte.1 t.readByte.1.readByte.1.rawE (rest2 ++ [45, 45, 62]) :=
+                  ((hh.tail).congr f4).at (by rw [f2])
+                have i2 := ih rest2 0 _ (by simp at hn'; omega) hh2 hb.2 f3
+                simp only [f3, f1, Bool.false_eq_true, dite_false, if_false, show (b2 == 62) = false by simp [hb.1]]
+                obtain ⟨⟨r1, r2⟩, r3, r4⟩ := i2
+                exact fin _ ⟨⟨by rw [r1, f2]; simp; omega, r2⟩, by rw [r3]; simp, by rw [r4, f2]; simp; omega⟩
+            · rw [if_neg hd] at hb ⊢
+              exact fin _ (ih rest 0 _ hn' hh hb e3)
+          · rw [if_neg h33] at hb ⊢
+            exact fin _ (ih rest 0 _ hn' hh hb e3)
+
+theorem commentGo_run2 (body : Bytes) (d : Nat) (t : Tokenizer) (h : Has t t.rawE (body ++ [45, 45, 62]))
+    (hb : cOK d body = true) (he : t.err = false) :
+    Stops t (commentGo t d) (body.length + 3) ∧ (commentGo t d).dataS = t.dataS ∧
+    (commentGo t d).dataE = t.rawE + body.length :=
+  commentGo_run2_aux body.length body d t (Nat.le_refl _) h hb he
+
+theorem readComment_run2 (body : Bytes) (t : Tokenizer) (h : Has t t.rawE (body ++ [45, 45, 62]))
+    (hb : commentOK2 body = true) (he : t.err = false) :
     Stops t (readComment t) (body.length + 3) ∧ (readComment t).dataS = t.rawE ∧
     (readComment t).dataE = t.rawE + body.length := by
-  have r := commentGo_run body 2 { t with dataS := t.rawE } (h.congr rfl) hb he
+  have r := commentGo_run2 body 2 { t with dataS := t.rawE } (h.congr rfl) hb he
   obtain ⟨⟨r1, r2⟩, r3, r4⟩ := r
   unfold readComment
   simp only
@@ -189,8 +303,8 @@ theorem readComment_run (body : Bytes) (t : Tokenizer) (h : Has t t.rawE (body +
   exact ⟨⟨r1, r2⟩, r3, r4⟩
 
 /-- the main loop on `<!--body-->` -/
-theorem mainLoop_comment (T : Tokenizer) (body : Bytes) (ok : Ok T) (he : T.err = false) (hrs : T.rawS = T.rawE)
-    (hb : commentOK body = true) (h : Has T T.rawE ([60, 33, 45, 45] ++ body ++ [45, 45, 62])) :
+theorem mainLoop_comment2 (T : Tokenizer) (body : Bytes) (ok : Ok T) (he : T.err = false) (hrs : T.rawS = T.rawE)
+    (hb : commentOK2 body = true) (h : Has T T.rawE ([60, 33, 45, 45] ++ body ++ [45, 45, 62])) :
     PieceM T (mainLoop T) .comment ([60, 33, 45, 45] ++ body ++ [45, 45, 62]).length ∧
     (mainLoop T).dataS = T.rawE + 4 ∧ (mainLoop T).dataE = T.rawE + 4 + body.length := by
   have hx : [60, 33, 45, 45] ++ body ++ [45, 45, 62] = 60 :: 33 :: 45 :: 45 :: (body ++ [45, 45, 62]) := by simp
@@ -214,7 +328,7 @@ theorem mainLoop_comment (T : Tokenizer) (body : Bytes) (ok : Ok T) (he : T.err 
     refine (this.congr (f4.trans (e4.trans ?_))).at ?_
     · exact o.buf
     · rw [f2, e2]; show S.rawE + 1 + 1 = _; rw [o.rawE]
-  obtain ⟨⟨r1, r2⟩, r3, r4⟩ := readComment_run body _ hbody hb f3
+  obtain ⟨⟨r1, r2⟩, r3, r4⟩ := readComment_run2 body _ hbody hb f3
   have a3 := readComment_adv S'.readByte.1.readByte.1 a2.ok (by rw [f2, e2]; show 3 ≤ S.rawE + 1 + 1; have := o.rawE; omega)
   have a13 := (a1.trans a2).trans a3
   have hmd : S.readMarkupDeclaration = (S'.readByte.1.readByte.1.readComment, TokenType.comment) := by
@@ -240,16 +354,35 @@ theorem mainLoop_comment (T : Tokenizer) (body : Bytes) (ok : Ok T) (he : T.err 
   · show (readComment _).dataS = _; rw [r3, hre]
   · show (readComment _).dataE = _; rw [r4, hre]
 
-/-- **closed form of `next` on a comment `<!--body-->`** followed by anything -/
-theorem comment_closed_form (t : Tokenizer) (body : Bytes) (ok : Ok t) (he : t.err = false) (htag : t.rawTag = [])
-    (hb : commentOK body = true) (h : Has t t.rawE ([60, 33, 45, 45] ++ body ++ [45, 45, 62])) :
+/-- **closed form of `next` on a comment `<!--body-->`** (body may contain `>` and `!`, see `cOK`) followed by anything -/
+theorem comment_closed_form2 (t : Tokenizer) (body : Bytes) (ok : Ok t) (he : t.err = false) (htag : t.rawTag = [])
+    (hb : commentOK2 body = true) (h : Has t t.rawE ([60, 33, 45, 45] ++ body ++ [45, 45, 62])) :
     Piece t (next t) .comment ([60, 33, 45, 45] ++ body ++ [45, 45, 62]).length [] ∧
     (next t).dataS = t.rawE + 4 ∧ (next t).dataE = t.rawE + 4 + body.length := by
   rw [next_mainLoop t he htag]
-  have := mainLoop_comment { ({ t with rawS := t.rawE, dataS := t.rawE, dataE := t.rawE } : Tokenizer) with
+  have := mainLoop_comment2 { ({ t with rawS := t.rawE, dataS := t.rawE, dataE := t.rawE } : Tokenizer) with
       textIsRaw := false, convertNull := false } body ⟨ok.le, ok.panic, ok.hang, ok.utf8⟩ he rfl hb (h.congr rfl)
   obtain ⟨p, d1, d2⟩ := this
   exact ⟨⟨p.token, p.rawS, p.rawE, p.err, p.rawTag.trans htag, p.cdata, p.buf⟩, d1, d2⟩
+
+/-- the instances for bodies without `>` and `!` -/
+theorem readComment_run (body : Bytes) (t : Tokenizer) (h : Has t t.rawE (body ++ [45, 45, 62]))
+    (hb : commentOK body = true) (he : t.err = false) :
+    Stops t (readComment t) (body.length + 3) ∧ (readComment t).dataS = t.rawE ∧
+    (readComment t).dataE = t.rawE + body.length :=
+  readComment_run2 body t h (commentOK2_of_commentOK hb) he
+
+theorem mainLoop_comment (T : Tokenizer) (body : Bytes) (ok : Ok T) (he : T.err = false) (hrs : T.rawS = T.rawE)
+    (hb : commentOK body = true) (h : Has T T.rawE ([60, 33, 45, 45] ++ body ++ [45, 45, 62])) :
+    PieceM T (mainLoop T) .comment ([60, 33, 45, 45] ++ body ++ [45, 45, 62]).length ∧
+    (mainLoop T).dataS = T.rawE + 4 ∧ (mainLoop T).dataE = T.rawE + 4 + body.length :=
+  mainLoop_comment2 T body ok he hrs (commentOK2_of_commentOK hb) h
+
+theorem comment_closed_form (t : Tokenizer) (body : Bytes) (ok : Ok t) (he : t.err = false) (htag : t.rawTag = [])
+    (hb : commentOK body = true) (h : Has t t.rawE ([60, 33, 45, 45] ++ body ++ [45, 45, 62])) :
+    Piece t (next t) .comment ([60, 33, 45, 45] ++ body ++ [45, 45, 62]).length [] ∧
+    (next t).dataS = t.rawE + 4 ∧ (next t).dataE = t.rawE + 4 + body.length :=
+  comment_closed_form2 t body ok he htag (commentOK2_of_commentOK hb) h
 
 /-! ### doctype -/
 
